@@ -103,8 +103,8 @@ pub fn dispatch(kind: &str, v: &Value) -> Option<Outcome> {
     }
 }
 
-pub fn run(ctx: &Ctx) -> i32 {
-    let mut st = ctx.run_replays(&dispatch);
+pub fn campaigns(ctx: &Ctx) -> Stats {
+    let mut st = Stats::default();
     let t = ctx.tier;
     // every pair in which the first shape is really broadcast (differs from the result's shape)
     let pairs: Vec<(Vec<usize>, Vec<usize>)> = admissible_pairs(&all_shapes(t.pick(3, 4), 3)).into_iter().filter(|(a, b)| broadcast_dims(a, b).unwrap() != *a).collect();
@@ -139,6 +139,12 @@ pub fn run(ctx: &Ctx) -> i32 {
     cfg.kinds.push((Kind::Backward, 6));
     let cfg2 = cfg.clone();
     st.merge(ctx.run_prop("programs-all-stored-gradients", total, move || recipe_strategy(len), move |r| Some(Case3::H(HistCase { oracle: "c03".into(), hist: elaborate(&cfg2, r) }))));
+    st
+}
+
+pub fn run(ctx: &Ctx) -> i32 {
+    let mut st = ctx.run_replays(&dispatch);
+    st.merge(campaigns(ctx));
     finish(
         ctx,
         st,
